@@ -173,6 +173,57 @@ func apiStorm(run *vk.Run, a childArgs) {
 	wg.Wait()
 	run.Eval(ops.Load())
 	run.Count("api_storm_ops", ops.Load())
+	expiryStorm(run, a)
+}
+
+// expiryStorm: idle groups (max-history-age 1 s) are registered 2 ms apart; two sweepers call
+// group.Update() all the time, and each group's only client arrives around the moment its
+// group becomes expirable: the registry's expiry (Update -> Delete) races with AddClient.
+func expiryStorm(run *vk.Run, a childArgs) {
+	n := 60
+	names := make([]string, n)
+	created := make([]time.Time, n)
+	for i := range names {
+		names[i] = fmt.Sprintf("idle%d-%d", a.Index, i)
+		writeGroupFile(names[i], map[string]any{"max-history-age": 1, "wildcard-user": map[string]any{"password": map[string]any{"type": "wildcard"}, "permissions": "present"}})
+	}
+	for i, name := range names {
+		group.Add(name, nil)
+		created[i] = time.Now()
+		time.Sleep(2 * time.Millisecond)
+	}
+	var stop atomic.Bool
+	var swg, wg sync.WaitGroup
+	for u := 0; u < 2; u++ {
+		swg.Add(1)
+		go func() {
+			defer swg.Done()
+			vsync.SetQuiet(true)
+			defer vsync.SetQuiet(false)
+			for !stop.Load() {
+				group.Update()
+			}
+		}()
+	}
+	for i, name := range names {
+		wg.Add(1)
+		go func(i int, name string) {
+			defer wg.Done()
+			r := run.Rand(8, a.Index, uint64(i))
+			time.Sleep(time.Until(created[i].Add(time.Second + time.Duration(r.IntN(12000))*time.Microsecond)))
+			c := &fakeClient{id: name + "-c"}
+			g, err := group.AddClient(name, c, group.ClientCredentials{Username: strp("u"), Password: "x"})
+			if err == nil {
+				c.setGroup(g)
+				run.Count("expiry_storm_joins", 1)
+				time.Sleep(time.Millisecond)
+				group.DelClient(c)
+			}
+		}(i, name)
+	}
+	wg.Wait()
+	stop.Store(true)
+	swg.Wait()
 }
 
 // ---- workload (c): WHIP clients joined, closed and kicked concurrently with joins --------
@@ -181,15 +232,41 @@ func whipStorm(run *vk.Run, a childArgs) {
 	setupDirs(os.Getenv("VERIF_CHILD_DIR"))
 	writeGroupFile("w1", groupDesc(map[string]any{"autolock": false}))
 	writeGroupFile("w2", groupDesc(map[string]any{"autokick": false}))
+	// w3 kicks everybody out when its last operator leaves (autokick): WHIP clients are
+	// members at that moment, and their Kick calls back into the group
+	writeGroupFile("w3", groupDesc(map[string]any{"autokick": true}))
 	var wg sync.WaitGroup
 	var ops atomic.Int64
+	var opsDone atomic.Bool
+	wg.Add(1)
+	go func() {
+		defer wg.Done()
+		defer opsDone.Store(true)
+		r := run.Rand(2, a.Index, 99)
+		for i := 0; i < a.Iter/4; i++ {
+			c := &fakeClient{id: fmt.Sprintf("wop%d-%d", a.Index, i)}
+			gg, err := group.AddClient("w3", c, group.ClientCredentials{Username: strp("op1"), Password: "pw-op1"})
+			if err != nil {
+				continue
+			}
+			c.setGroup(gg)
+			time.Sleep(time.Duration(50+r.IntN(400)) * time.Microsecond)
+			run.Note(fmt.Sprintf("the last operator %s leaves the autokick group w3 (%d members)", c.id, gg.ClientCount()))
+			group.DelClient(c)
+			run.Count("autokick_last_operator_departures", 1)
+			ops.Add(1)
+		}
+	}()
 	for w := 0; w < 8; w++ {
 		wg.Add(1)
 		go func(w int) {
 			defer wg.Done()
 			r := run.Rand(2, a.Index, uint64(w))
 			for i := 0; i < a.Iter; i++ {
-				name := []string{"w1", "w2"}[r.IntN(2)]
+				name := []string{"w1", "w2", "w3"}[r.IntN(3)]
+				if name == "w3" && opsDone.Load() {
+					name = "w1"
+				}
 				g, err := group.Add(name, nil)
 				if err != nil {
 					continue
@@ -702,24 +779,35 @@ func main() {
 	}
 	run := vk.Start("C13")
 	run.MaxSamples = 8
+	// Every other repetition runs from the binary linked with the light vsync variant
+	// (perturbation only): the full monitor's own synchronisation orders, in the race
+	// detector's eyes, any two accesses that are separated by two instrumented lock
+	// operations and so hides races; the light variant shares nothing between goroutines.
+	// Deadlock and lock-order verdicts come from the full variant, race verdicts from both.
 	type job struct {
-		mode string
-		args childArgs
+		mode  string
+		args  childArgs
+		light bool
 	}
 	var jobs []job
 	reps := run.Pick(2, 10)
 	iter := run.Pick(1500, 6000)
+	lightBin := os.Getenv("VERIF_LIGHT_BIN")
 	for i := 0; i < reps; i++ {
-		p := []int{0, 30, 60}[i%3]
-		jobs = append(jobs, job{"api", childArgs{uint64(i), iter, p}})
-		jobs = append(jobs, job{"whip", childArgs{uint64(i), iter, p}})
-		jobs = append(jobs, job{"disk", childArgs{uint64(i), iter, p}})
-		jobs = append(jobs, job{"ws", childArgs{uint64(i), iter, p}})
-		jobs = append(jobs, job{"queue", childArgs{uint64(i), iter, []int{30, 60, 90}[i%3]}})
-		jobs = append(jobs, job{"rtc", childArgs{uint64(i), iter, []int{30, 0, 60}[i%3]}})
+		p := []int{30, 30, 60, 60, 0, 0}[i%6]
+		light := i%2 == 1 && lightBin != ""
+		jobs = append(jobs, job{"api", childArgs{uint64(i), iter, p}, light})
+		jobs = append(jobs, job{"whip", childArgs{uint64(i), iter, p}, light})
+		jobs = append(jobs, job{"disk", childArgs{uint64(i), iter, p}, light})
+		jobs = append(jobs, job{"ws", childArgs{uint64(i), iter, p}, light})
+		jobs = append(jobs, job{"queue", childArgs{uint64(i), iter, []int{30, 60, 90}[i%3]}, light})
+		jobs = append(jobs, job{"rtc", childArgs{uint64(i), iter, []int{30, 30, 60, 0}[i%4]}, light})
 	}
 	for i := 0; i < 3; i++ {
-		jobs = append(jobs, job{"shutdown", childArgs{uint64(i), 1, 0}})
+		jobs = append(jobs, job{"shutdown", childArgs{uint64(i), 1, 0}, false})
+	}
+	if lightBin == "" {
+		run.Inconclusive("the light vsync binary was not built (VERIF_LIGHT_BIN unset)")
 	}
 	if rep, ok := vk.ReplayInput(); ok {
 		m, _ := rep["replay"].(map[string]any)
@@ -727,7 +815,7 @@ func main() {
 		idx, _ := m["index"].(float64)
 		jobs = nil
 		for i := 0; i < 5; i++ {
-			jobs = append(jobs, job{mode, childArgs{uint64(idx), iter, []int{0, 30, 60, 90, 50}[i]}})
+			jobs = append(jobs, job{mode, childArgs{uint64(idx), iter, []int{0, 30, 60, 90, 50}[i]}, i%2 == 1 && lightBin != ""})
 		}
 	}
 	var mu sync.Mutex
@@ -743,8 +831,15 @@ func main() {
 		go func(j job) {
 			defer wg.Done()
 			defer func() { <-sem }()
-			res := run.RunChild(j.mode, j.args, 5*time.Minute)
-			rep := map[string]any{"mode": j.mode, "index": j.args.Index, "perturb": j.args.Perturb}
+			var extra []string
+			if j.light {
+				extra = append(extra, "VERIF_CHILD_BIN="+lightBin)
+			}
+			res := run.RunChild(j.mode, j.args, 5*time.Minute, extra...)
+			rep := map[string]any{"mode": j.mode, "index": j.args.Index, "perturb": j.args.Perturb, "light_vsync": j.light}
+			if j.light {
+				run.Count("children_with_light_vsync", 1)
+			}
 			mu.Lock()
 			defer mu.Unlock()
 			for _, n := range res.Notes {
@@ -826,6 +921,7 @@ func main() {
 	run.FloorCounter("ws_storm_ops", 100)
 	run.FloorCounter("rtc_storm_ops", 20)
 	run.FloorCounter("lock_events", 10000)
+	run.FloorCounter("children_with_light_vsync", 6)
 	run.FloorCounter("queue_items_drained_exactly_once", 1000)
 	run.Assume("race reports decide C13 only when one of the two accesses lies in an anchor file of the property; lock-order cycles are listed as candidates and only an actual wait-for cycle is a deadlock verdict")
 	run.Assume("mutexes of group, rtpconn, unbounded, diskwriter, token are instrumented on the scratch copy (vinstr + overlay/vsync); blocking on channels or I/O is outside the wait-for graph (watchdog => inconclusive)")
